@@ -11,6 +11,19 @@ def _c(id, episodes, max_steps, policies, ctor=None, **kw):
     return dict(id=id, ctor=dict(ctor or {}), episodes=episodes, max_steps=max_steps, policies=policies, **kw)
 
 
+def hamiltonian_order(rows, cols):
+    """A Hamiltonian cycle of the board (one of the two sides must be even): row 0 left to right, the other rows
+    zig-zag over columns 1.., back up along column 0.  Following it the snake can never run into itself."""
+    if rows % 2:
+        return [(r, c) for (c, r) in hamiltonian_order(cols, rows)]
+    order = [(0, c) for c in range(cols)]
+    for r in range(1, rows):
+        order += [(r, c) for c in (range(cols - 1, 0, -1) if r % 2 == 1 else range(1, cols))]
+    order += [(r, 0) for r in range(rows - 1, 0, -1)]
+    assert len(set(order)) == rows * cols
+    return order
+
+
 class Adapter(EnvAdapter):
     name = "Snake"
     props = ("C01", "C03", "C04", "C05", "C07", "C08", "C09", "C10", "C11", "C12")
@@ -42,6 +55,9 @@ class Adapter(EnvAdapter):
                 # one full-length episode at the default time limit (sparse probes)
                 _c("r3c5_t4000_long", 1, 4010, ["survive"], g(3, 5, 4000), probe_every=250,
                    props=["C01", "C03", "C11", "C12", "C07"]),
+                # late game on the default board: from 124 cells along a Hamiltonian cycle past 128 cells
+                _c("default_late124", 1, 420, ["hamilton"], late=124, probe_every=60, post_terminal=0,
+                   props=["C03", "C04", "C05", "C07", "C09", "C12"]),
                 # INJ: every snake/fruit configuration of the 2x3 TLC model as a start state, all 4 actions probed
                 _c("inj2x3", 0, 1, ["masked"], g(2, 3, 4000), inject=("MC_Snake", "MC_Snake_quick.cfg"), post_terminal=0,
                    limit=1500, props=INJ_PROPS),
@@ -65,6 +81,14 @@ class Adapter(EnvAdapter):
         out.append(_c("r1c6", 30, 12, mix, g(1, 6, 4000)))
         out.append(_c("r5c1", 30, 10, mix, g(5, 1, 4000)))
         out.append(_c("r17c16_t40", 4, 44, ["seek", "survive", "masked"], g(17, 16, 40), probe_every=4))
+        # the default board played to the end: from the library's own reset along a Hamiltonian cycle (time limit raised so
+        # that the board can be filled: 144 cells, at most 144 steps per fruit), and the late game from 120 cells
+        out.append(_c("r12c12_t30000_hamilton", 1, 21000, ["hamilton"], g(12, 12, 30000), probe_every=500,
+                      props=["C01", "C03", "C04", "C05", "C07", "C09", "C12"]))
+        out.append(_c("default_late120", 3, 3500, ["hamilton"], late=120, probe_every=100, post_terminal=0,
+                      props=["C03", "C04", "C05", "C07", "C09", "C12"]))
+        out.append(_c("r16c16_late200", 1, 1600, ["hamilton"], g(16, 16, 4000), late=200, probe_every=100, post_terminal=0,
+                      props=["C03", "C04", "C05", "C07", "C09", "C12"]))
         for t in (1, 2, 3, 7):
             out.append(_c(f"r12c12_t{t}", 8, t + 3, ["survive", "seek", "random"], g(12, 12, t)))
         return out
@@ -72,9 +96,53 @@ class Adapter(EnvAdapter):
     def make(self, cfg):
         from jumanji.environments import Snake
 
+        if "late" in cfg:
+            return self._make_late(cfg)
         if "inject" not in cfg:
             return Snake(**cfg["ctor"])
         return self._make_injected(cfg)
+
+    def _make_late(self, cfg):
+        """Late game on a large board: the episode starts from a snake of cfg["late"] cells laid along the Hamiltonian
+        cycle (arrays of the dtypes of the library's own reset state; every other field is the library's), and is then
+        played along the cycle by the real step until the board is full."""
+        import jax.numpy as jnp
+
+        from harness import inject
+        from jumanji.environments import Snake
+        from jumanji.types import restart
+
+        inject.need(Snake, "_get_action_mask", "_state_to_observation")
+        rows, cols = cfg["ctor"].get("num_rows", 12), cfg["ctor"].get("num_cols", 12)
+        order = hamiltonian_order(rows, cols)
+        length = cfg["late"]
+        tabs = []
+        for ep in range(max(cfg["episodes"], 1)):
+            start = (ep * 37) % len(order)
+            bs = np.zeros((rows, cols), np.int64)
+            for k in range(length):
+                bs[order[(start + k) % len(order)]] = k + 1
+            head = order[(start + length - 1) % len(order)]
+            fruit = order[(start + length + (ep * 11) % (len(order) - length)) % len(order)]
+            tabs.append((bs, head, fruit))
+        bsa = np.array([t[0] for t in tabs])
+        sca = np.array([[*t[1], *t[2]] for t in tabs], np.int32)
+
+        class Late(Snake):
+            def reset(self, key):
+                tpl, _ = super().reset(key)
+                j = key[1] % bsa.shape[0]
+                body_state = jnp.asarray(bsa)[j].astype(tpl.body_state.dtype)
+                sc = jnp.asarray(sca)[j]
+                head = inject.state_like(tpl.head_position, row=sc[0], col=sc[1])
+                state = inject.state_like(
+                    tpl, body=body_state > 0, body_state=body_state, head_position=head, tail=body_state == 1,
+                    fruit_position=inject.state_like(tpl.fruit_position, row=sc[2], col=sc[3]),
+                    length=jnp.asarray(length).astype(tpl.length.dtype),
+                    action_mask=self._get_action_mask(head, body_state))
+                return state, restart(observation=self._state_to_observation(state))
+
+        return Late(**cfg["ctor"])
 
     def _make_injected(self, cfg):
         """INJ: every snake/fruit configuration reachable in the TLC model (all self-avoiding snakes of the small grid,
@@ -115,7 +183,7 @@ class Adapter(EnvAdapter):
         return Injected(**cfg["ctor"])
 
     def episode_key(self, cfg, ep, seed):
-        if "inject" not in cfg:
+        if "inject" not in cfg and "late" not in cfg:
             return None
         from harness import inject
 
@@ -128,6 +196,14 @@ class Adapter(EnvAdapter):
 
     # ---- policies ---------------------------------------------------------------------------
     def choose(self, policy, env, state, obs, rng, i):
+        if policy == "hamilton":
+            # follow a fixed Hamiltonian cycle of the board: always safe, the snake grows until the board is full
+            rows, cols = state.body_state.shape
+            order = hamiltonian_order(rows, cols)
+            k = order.index((int(state.head_position.row), int(state.head_position.col)))
+            nxt = order[(k + 1) % len(order)]
+            d = (nxt[0] - order[k][0], nxt[1] - order[k][1])
+            return np.asarray([tuple(m) for m in MOVES.tolist()].index(d), dtype=env.action_spec.dtype)
         if policy not in ("seek", "survive"):
             return super().choose(policy, env, state, obs, rng, i)
         dt = env.action_spec.dtype
